@@ -67,6 +67,7 @@ void ascon_permute(ascon_state_t *state, uint8_t first_round)
     while (first_round < 12)
     ASCON_VERIF_LOOP(permute_c64)
     {
+        ASCON_VERIF_GHOST(permute_c64_top)
         /* Add the round constant to the state */
         x2 ^= RC[first_round];
 
@@ -91,6 +92,7 @@ void ascon_permute(ascon_state_t *state, uint8_t first_round)
 
         /* Move onto the next round */
         ++first_round;
+        ASCON_VERIF_GHOST(permute_c64_bottom)
     }
     x2 = ~x2;
 #if defined(ASCON_BACKEND_C64_DIRECT_XOR)
